@@ -291,6 +291,16 @@ func TestReplay(t *testing.T) {
 	if err != nil {
 		t.Fatal(err)
 	}
+	if r.Kind == "axioms" {
+		var ac AxiomCase
+		json.Unmarshal(r.Case, &ac)
+		if ac.Axiom == "<listing>" {
+			TestAxioms(t)
+		} else {
+			checkAxiom(t, ac.Axiom, false)
+		}
+		return
+	}
 	var c Case
 	if err := json.Unmarshal(r.Case, &c); err != nil {
 		t.Fatal(err)
